@@ -86,6 +86,26 @@ CHECKS = {
   "11.6 million inputs in the quick tier (all strings of length <=4 over 49 symbols, lexeme sequences <=3, every single-byte substitution/insertion/deletion of 130 seeds, numeric-looking strings, escape tails, prefixes, invalid UTF-8 pairs, regex flags/patterns, limit literals under 26 wrappings, @/last placements): no panic, exactly one of (path,error), error chains, MustParse, Scan/UnmarshalText/UnmarshalBinary, accept/reject agreement with refparse, every accepted like_regex compiles, 60 s hang watchdog.",
   "Inputs longer than the bounds that are not within one edit of a seed are not covered; runaway allocation is not sandboxed (no subprocess/ulimit); refparse declines a few forms the documentation leaves open.",
   "DESIGN.md §3 C04"),
+ "C16": ("model_checking", "ref-conformance",
+  "bounded exhaustive enumeration of method x input-kind x boundary-grid x representation (thorough: the whole .decimal(p,s) domain) against a math/big reference; relations for .string() round trips and keyvalue ids",
+  "12 methods and .decimal with 41 precision/scale combinations (thorough: all 2,001,000 (p,s) pairs x 12 values) x ~270 inputs (48 boundary numbers as float64/json.Number/string, hostile spellings, 48 strings, containers), direct and after [*], both modes, verbose/silent, against the reference (accepted kinds, suppressible errors, correct rounding, mandatory range errors); .string() converts back; keyvalue triples, ids equal within an object, distinct across objects, stable over three executions and independent of earlier failing evaluation.",
+  "Values outside the grid are not covered; string forms the documentation leaves open (hex floats, blanks, abbreviated boolean words) are declined.",
+  "DESIGN.md §3 C16"),
+ "C17": ("model_checking", "ref-conformance",
+  "bounded exhaustive enumeration of a datetime string grid x methods x precisions x WithTZ x context zones against a reference civil-time model; all pairs/triples of a comparison grid for order axioms and cast coherence",
+  "About 2,000 (thorough 10,000) datetime strings (5 kinds, year/day boundaries, New York DST days and hours, 0..9 fractional digits with carries, offsets -12..+14 incl. half hours in every spelling, unrecognised forms) x 6 methods x precisions 0..7/absent x {WithTZ, not} x 6 context zones; all ordered pairs of a 32-value grid x 6 operators x zones: reference order, antisymmetry, comparison = comparison after explicit casts, time vs date/timestamp unknown; all triples for transitivity.",
+  "Go's tz database is trusted for the offset of a zone at an instant; time->timetz casts under DST zones (depend on time.Now), >6 fractional digits without precision, and local-mean-time offsets are declined.",
+  "DESIGN.md §3 C17"),
+ "C18": ("model_checking", "ref-conformance",
+  "bounded exhaustive enumeration of datetime values (grid) and of byte strings fed to UnmarshalJSON; inverse-function relations on the real types package",
+  "Every grid value of the five Go types (9 dates, 4 clocks, 9 nanosecond patterns, whole-minute offsets -12:00..+14:00 in 15/45-minute steps plus odd minutes): String() equals a reference ISO-8601 printer, ParseTime(String(v)) and json round trips are identities, .string() in a path prints the same; UnmarshalJSON (direct and via encoding/json) never panics on every byte string of length <=3 over 20 bytes, every prefix/suffix/single-byte edit of 8 valid encodings and all JSON token kinds; date->timestamptz->date and timestamp->timestamptz->timestamp identities for every grid value and every minute-pattern of 6 DST-transition days x 8 context zones where the local time exists.",
+  "Years outside 1..9999 and offsets with seconds are outside the property; Go's tz database is trusted.",
+  "DESIGN.md §3 C18"),
+ "C19": ("model_checking", "scheduler",
+  "stateless schedule exploration: controlled cooperative scheduler over real goroutines, depth-first over all interleavings with a bounded number of preemptions; explicit-state BFS over call histories with a reflect fingerprint as state hash",
+  "864 two- and three-thread scenarios (every pair of entry points on one shared *Path for 28 pool paths, every pair of pool paths sharing document and variables, triples of a core) plus 30 token-level concurrent Parse scenarios; all schedules with <=2 (thorough 3) preemptions (530,000 complete executions in the quick tier); every call must return its solo result and leave document/variables (incl. hidden slice capacity) untouched; BFS over call histories per Path (fixpoint reached at depth 1 on this tree: one state); determinism on fresh inputs; supplementary free-running race-detector pass.",
+  "A data race that never changes a result (a write undone before the next yield point, or a benign unsynchronised cache) is invisible to the exhaustive parts and is caught only by the schedule-sampled race pass; lax Exists over multi-member wildcards is not scheduled (unowned map-order nondeterminism).",
+  "DESIGN.md §3 C19"),
 }
 
 PENDING = {}
@@ -124,6 +144,7 @@ def main():
             {"name": "ref-conformance", "path": "/verif/mc", "serves_properties": [], "kind_free_text": "bounded exhaustive enumeration of programs x documents x configurations against a reference interpreter / relations between real executions"},
             {"name": "lex-parse", "path": "/verif/mc/refparse.go", "serves_properties": ["C02", "C03", "C04"], "kind_free_text": "exhaustive string/spelling enumeration against an independent recursive-descent parser and round-trip relations"},
             {"name": "step-graph", "path": "/verif/mc/c09.go", "serves_properties": ["C09"], "kind_free_text": "explicit-state exploration whose transition function is the real Query"},
+            {"name": "scheduler", "path": "/verif/mc/sched.go", "serves_properties": ["C19"], "kind_free_text": "controlled cooperative scheduler + DFS over schedules with a preemption bound; history BFS with fingerprint state hash"},
             {"name": "poll-fault", "path": "/verif/mc/c20.go", "serves_properties": ["C20"], "kind_free_text": "fault-point enumeration over context polls"},
         ],
         "checks": checks,
